@@ -132,7 +132,9 @@ fn run_config(e: &Expression, n_threads: usize, rpt: usize, case: &str, seed: u6
     rep.add("schedules_run", ex.schedules);
     rep.add("distinct_interleavings", ex.distinct.len() as u64);
     rep.add("steps_executed", ex.steps_executed);
-    rep.add("nontrivial_by_construction", ex.blocked_schedules.max(ex.alternating_schedules).min(ex.distinct.len() as u64));
+    // non-trivial: the threads' records really interleave (writers of one port switch at least twice)
+    rep.add("nontrivial_by_construction", ex.alternating_schedules.min(ex.distinct.len() as u64));
+    rep.add("schedules_with_a_blocked_thread", ex.blocked_schedules);
     rep.max("max_threads_blocked_at_once", ex.max_blocked_at_once as u64);
     if ex.exhaustive {
         rep.count("configs_explored_exhaustively");
@@ -146,7 +148,9 @@ fn run_config(e: &Expression, n_threads: usize, rpt: usize, case: &str, seed: u6
     let detail = |trace: &Vec<usize>| J::obj(vec![("expression", J::s(render_default(e).unwrap_or_default())), ("threads", J::Int(n_threads as i128)), ("records_per_thread", J::Int(rpt as i128)), ("schedule", J::s(format!("{:?}", trace))), ("program", J::s(&p.program))]);
     let suffix = if fid { ":print-file-fid" } else { "" };
     match &ex.bad {
-        Some(Bad::Lockset { detail: d, .. }) => rep.violation(&format!("C16:lockset:{}{}", mode, suffix), d, case, detail(&vec![])),
+        // no common mutex but no torn schedule either (e.g. each record is one atomic write): the property,
+        // which quantifies over interleavings of the write steps, holds on everything explored
+        Some(Bad::Lockset { .. }) => rep.count("lockset_warnings_without_torn_schedule"),
         Some(Bad::Torn { detail: d, trace }) => rep.violation(&format!("C16:torn:{}{}", mode, suffix), &format!("{} (schedule {:?})", d, trace), case, detail(trace)),
         Some(Bad::Deadlock { detail: d, trace }) => rep.violation(&format!("C16:deadlock:{}", mode), d, case, detail(trace)),
         None => {
